@@ -61,7 +61,36 @@ fn one_call(r: &mut Rng, own: &FsTzdbProvider) -> (String, String, String, Strin
         Ok(z) => z,
         Err(_) => return ("ZonedDateTime::try_new".into(), zone.into(), "Err".into(), "Err".into(), case),
     };
-    let (name, a, b): (&str, String, String) = match r.below(14) {
+    let (name, a, b): (&str, String, String) = match r.below(17) {
+        // a call that fails after the provider has been taken (result out of range): it must return its error, not hang or poison
+        14 | 15 => {
+            let years = *r.pick(&[300_000.0f64, -300_000.0, 600_000.0]);
+            match dur10([years, 0.0, 0.0, 0.0, 0.0, 0.0, 0.0, 0.0, 0.0, 0.0]) {
+                Ok(d) if r.bool() => ("ZonedDateTime::add(out of range)", outcome(&call(|| z.add(&d, None)).map(|x| x.epoch_nanoseconds().as_i128())), outcome(&call(|| z.add_with_provider(&d, None, own)).map(|x| x.epoch_nanoseconds().as_i128()))),
+                Ok(d) => ("ZonedDateTime::subtract(out of range)", outcome(&call(|| z.subtract(&d, None)).map(|x| x.epoch_nanoseconds().as_i128())), outcome(&call(|| z.subtract_with_provider(&d, None, own)).map(|x| x.epoch_nanoseconds().as_i128()))),
+                Err(_) => ("ZonedDateTime::hour", outcome(&call(|| z.hour())), outcome(&call(|| z.hour_with_provider(own)))),
+            }
+        }
+        // a zone given in another spelling of its name (the enum variant is public): the answer must be the one a brand-new
+        // provider gives, whoever loaded the canonical spelling before
+        16 => {
+            let spelled = match r.below(3) {
+                0 => zone.to_ascii_lowercase(),
+                1 => zone.to_ascii_uppercase(),
+                _ => zone.chars().enumerate().map(|(i, c)| if i % 2 == 0 { c.to_ascii_uppercase() } else { c.to_ascii_lowercase() }).collect(),
+            };
+            if spelled == zone || zone.starts_with('+') || zone.starts_with('-') {
+                ("ZonedDateTime::hour", outcome(&call(|| z.hour())), outcome(&call(|| z.hour_with_provider(own))))
+            } else {
+                match ZonedDateTime::try_new(t, Calendar::default(), TimeZone::IanaIdentifier(spelled)) {
+                    Ok(zs) => {
+                        let fresh = FsTzdbProvider::default();
+                        ("ZonedDateTime::hour(other spelling of the zone name)", outcome(&call(|| zs.hour())), outcome(&call(|| zs.hour_with_provider(&fresh))))
+                    }
+                    Err(_) => ("ZonedDateTime::hour", outcome(&call(|| z.hour())), outcome(&call(|| z.hour_with_provider(own)))),
+                }
+            }
+        }
         0 => ("ZonedDateTime::hour", outcome(&call(|| z.hour())), outcome(&call(|| z.hour_with_provider(own)))),
         1 => ("ZonedDateTime::offset", outcome(&call(|| z.offset())), outcome(&call(|| z.offset_with_provider(own)))),
         2 => ("ZonedDateTime::to_plain_datetime", outcome(&call(|| z.to_plain_datetime()).map(|x| pdt_local_ns(&x))), outcome(&call(|| z.to_plain_datetime_with_provider(own)).map(|x| pdt_local_ns(&x)))),
